@@ -49,8 +49,10 @@ def run(harnesses, tier):
     except subprocess.TimeoutExpired:
         return dict(harnesses=[], status='error', reason='cargo kani timed out')
     txt = p.stdout + '\n' + p.stderr
-    with open(os.path.join(VERIF, 'evidence', 'extracted', 'kani.log'), 'w') as f:
+    logp = os.path.join(os.path.dirname(TARGET) if os.environ.get('VERIF_ISOLATE') and REPO != '/repo' else os.path.join(VERIF, 'evidence', 'extracted'), 'kani.log')
+    with open(logp + '.%d.tmp' % os.getpid(), 'w') as f:
         f.write(txt[-200000:])
+    os.replace(logp + '.%d.tmp' % os.getpid(), logp)
     # split per harness
     blocks = re.split(r'(?=Checking harness )', txt)
     seen = {}
